@@ -480,24 +480,47 @@ pub fn run_batch(engine: &dyn Engine, cfg: &BatchCfg) -> BatchResult {
     if !reported.insert((mv.invariant.clone(), mv.signature.clone())) {
       continue;
     }
-    let value = replay_value(engine, cfg, *idx, &out, &mv, execs);
     let dir = format!("{}/replays", cfg.verif_dir);
     let _ = std::fs::create_dir_all(&dir);
     let path = format!("{dir}/{}-{}-{}.json", cfg.property, cfg.seed, idx);
-    if let Err(e) = std::fs::write(&path, serde_json::to_string_pretty(&value).unwrap()) {
-      eprintln!("HARNESS-ERROR cannot write replay file {path}: {e}");
-      exit_code = 2;
-      continue;
+    // Writes the replay file and verifies in a fresh process that it reproduces exactly.
+    let write_and_verify = |out: &Outcome, mv: &Violation, execs: u32| -> Result<Option<i32>, String> {
+      let value = replay_value(engine, cfg, *idx, out, mv, execs);
+      std::fs::write(&path, serde_json::to_string_pretty(&value).unwrap()).map_err(|e| e.to_string())?;
+      let exe = std::env::current_exe().expect("current exe");
+      let status = std::process::Command::new(exe)
+        .arg("replay")
+        .arg(&path)
+        .arg("--quiet")
+        .status()
+        .map_err(|e| e.to_string())?;
+      Ok(status.code())
+    };
+    let mut mv = mv;
+    let mut status = write_and_verify(&out, &mv, execs);
+    if !matches!(status, Ok(Some(1))) {
+      // The minimised tape fails only inside this process: code under test carried state from one execution into
+      // the next (a cache, a thread-local), which misleads shrinking. Fall back to the recorded, unminimised tape.
+      if let Some(out0) = reproduce(engine, &cfg.property, &cfg.params, &first.tape, true, &v.invariant) {
+        if let Some(mv0) = out0.violations.iter().find(|x| x.invariant == v.invariant).cloned() {
+          let s0 = write_and_verify(&out0, &mv0, 0);
+          if matches!(s0, Ok(Some(1))) {
+            eprintln!(
+              "NOTE property={} run={}: minimised tape did not reproduce in a fresh process, the unminimised tape does (state carried across executions inside one process); replay file holds the unminimised tape",
+              cfg.property, idx
+            );
+            mv = mv0;
+            status = s0;
+          }
+        }
+      }
     }
-    // Verify in a fresh process that the replay reproduces exactly.
-    let exe = std::env::current_exe().expect("current exe");
-    let status = std::process::Command::new(exe)
-      .arg("replay")
-      .arg(&path)
-      .arg("--quiet")
-      .status();
     match status {
-      Ok(s) if s.code() == Some(1) => {
+      Err(e) => {
+        eprintln!("HARNESS-ERROR cannot write or run replay file {path}: {e}");
+        exit_code = 2;
+      }
+      Ok(Some(1)) => {
         violation_lines.push(format!(
           "VIOLATION property={} replay={} invariant={} signature={} runs={} message={}",
           cfg.property, path, mv.invariant, mv.signature, count, mv.message
@@ -507,8 +530,8 @@ pub fn run_batch(engine: &dyn Engine, cfg: &BatchCfg) -> BatchResult {
           exit_code = 1;
         }
       }
-      other => {
-        eprintln!("HARNESS-ERROR replay of {path} did not reproduce in a fresh process: {other:?}");
+      Ok(other) => {
+        eprintln!("HARNESS-ERROR replay of {path} did not reproduce in a fresh process: exit {other:?}");
         exit_code = 2;
       }
     }
